@@ -20,7 +20,7 @@ WIDTH = {"int": 4, "unsigned int": 4, "long long": 8, "unsigned long long": 8, "
          "unsigned long": 8}
 
 
-def _index_loops(stmt, last, unsigned_const):
+def _index_loops(stmt, last, unsigned_const, tu=None):
     """Constant ranges of the for-loops that assign index[i], in execution
     order, for the pass selected by `last`."""
     out = []
@@ -53,30 +53,65 @@ def _index_loops(stmt, last, unsigned_const):
             return last
         return None
 
-    def walk(s):
+    def helper_ranges(e, env):
+        """index ranges laid out by helpers called inside expression e (a
+        helper whose body has the index-filling loop with bounds taken from
+        its parameters)"""
+        for c in e.walk():
+            if c.k == "CallExpr" and callee(c)[0] == "fn" and tu is not None and callee(c)[1] in tu.funcs \
+                    and callee(c)[1] != "radixsort_int":
+                name = callee(c)[1]
+                params = tu.params(name)
+                env2 = {}
+                for p0, a in zip(params, c.kids[1:]):
+                    v = const_int(a)
+                    if v is None and path(a) in env:
+                        v = env[path(a)]
+                    if v is not None:
+                        env2[p0.n] = v
+                walk(tu.body(name), env2)
+
+    def bound(e, env):
+        v = const_int(e)
+        if v is None and path(e) in env:
+            v = env[path(e)]
+        return v
+
+    def walk(s, env=None):
+        env = env or {}
         if s.k == "CompoundStmt":
             for c in s.kids:
-                walk(c)
+                walk(c, env)
         elif s.k == "IfStmt":
             t = ev(s.kids[0])
             if t is None:
                 # conditions on counts (icount == n, i < 256): both branches
-                # are data dependent; loops inside are not index loops
+                # are data dependent; loops inside are not index loops - but a
+                # helper called in the condition may lay out a range
+                helper_ranges(s.kids[0], env)
                 for c in s.kids[1:]:
-                    walk(c)
+                    walk(c, env)
             elif t:
-                walk(s.kids[1])
+                walk(s.kids[1], env)
             elif len(s.kids) > 2:
-                walk(s.kids[2])
+                walk(s.kids[2], env)
         elif s.k == "ForStmt":
             body = s.kids[-1]
             assigns = [a for a in body.walk() if a.k == "BinaryOperator" and a.v == "="
                        and text(a.kids[0]).startswith("index[")]
             if assigns:
                 init, cond = s.kids[0], s.kids[2]
-                lo = const_int(strip(init).kids[1]) if strip(init).k == "BinaryOperator" else None
-                hi = const_int(strip(cond).kids[1]) if strip(cond).k == "BinaryOperator" else None
+                lo = bound(strip(init).kids[1], env) if strip(init).k == "BinaryOperator" else None
+                hi = bound(strip(cond).kids[1], env) if strip(cond).k == "BinaryOperator" else None
                 out.append((lo, hi))
+            else:
+                walk(body, env)
+        elif s.k in ("WhileStmt", "DoStmt"):
+            walk(s.kids[-1] if s.k == "WhileStmt" else s.kids[0], env)
+        elif s.k.endswith("Stmt"):
+            pass
+        else:
+            helper_ranges(s, env)
     walk(stmt)
     return out
 
@@ -111,8 +146,8 @@ def analyse_tu(tu):
     if loop is None:
         raise AnalysisError("anchor vanished: radix loop in radixsort_int")
     body = loop.kids[-1]
-    last = _index_loops(body, True, not SIGNED[et])
-    other = _index_loops(body, False, not SIGNED[et])
+    last = _index_loops(body, True, not SIGNED[et], tu)
+    other = _index_loops(body, False, not SIGNED[et], tu)
     want_last = [(128, 256), (0, 128)] if SIGNED[et] else [(0, 256)]
     if last != want_last:
         findings.append(dict(
